@@ -1,6 +1,7 @@
 package main
 
 import (
+	"os"
 	"fmt"
 	"go/types"
 	"sort"
@@ -13,7 +14,7 @@ func init() {
 	register(&propInfo{
 		ID:          "C19",
 		Run:         runC19,
-		MinObl:      60,
+		MinObl:      262,
 		Explanation: "Decided (race-freedom and deadlock-freedom preconditions, not interleaving semantics): R1 lock discipline of storage.MemoryStore — on every path of every method (calls to other methods of the receiver traversed in place) each write to a guarded map happens with that map's mutex write-locked and each read with it read- or write-locked, for every map that some method writes; every map field is in the guard table; R2 every Lock/RLock is released on all exits, no method acquires a mutex it already holds, and the held→acquired relation over all methods is acyclic; R3 a method that writes several guarded maps holds all their write locks at each of those writes, and no mutex is released between a read of a map and a later write of the same map on one path (check-then-insert / read-modify-write sections); R4 no method of a provider-shared type (Fosite, Config, handler and strategy structs — found by the interfaces they implement) stores into a field or map of its receiver, and no function outside package init stores to a package-level variable, unless a mutex of that object is held; R5 objects owned by the store (results of storage lookups and what their getters return, unless passed through Clone/Sanitize) are not mutated and not installed into the request by handler code. NOT decided: linearizability of request-level operations, liveness, absence of panics, uniqueness of generated tokens, races inside collaborators (ristretto cache, go-jose).",
 	})
 }
@@ -439,40 +440,84 @@ func c19R4(c *Ctx) {
 		if rt == pkgRoot+".RFC6749Error" && strings.HasPrefix(fn.Name(), "With") && fn.Name() != "WithTrace" {
 			isShared = true
 		}
-		var bad []string
-		locks := false
-		var walk func(f *ssa.Function)
+		// writes in the method body need the exclusive lock (Lock, not RLock); writes inside a closure
+		// are also covered by sync.Once.Do (one-time initialisation)
+		var badBody, badClosure []string
+		lockW, once := false, false
+		var walk func(f *ssa.Function, inClosure bool)
+		recvFree := map[ssa.Value]bool{}
 		seen := map[*ssa.Function]bool{}
-		walk = func(f *ssa.Function) {
+		walk = func(f *ssa.Function, inClosure bool) {
 			if seen[f] {
 				return
 			}
 			seen[f] = true
+			add := func(s string) {
+				if inClosure {
+					badClosure = append(badClosure, s)
+				} else {
+					badBody = append(badBody, s)
+				}
+			}
 			for _, b := range f.Blocks {
 				for _, ins := range b.Instrs {
 					switch ins := ins.(type) {
 					case *ssa.Call:
-						if sf := ins.Common().StaticCallee(); sf != nil && sf.Pkg != nil && sf.Pkg.Pkg.Path() == "sync" && (sf.Name() == "Lock" || sf.Name() == "Do") {
-							locks = true
+						if sf := ins.Common().StaticCallee(); sf != nil && sf.Pkg != nil && sf.Pkg.Pkg.Path() == "sync" {
+							switch sf.Name() {
+							case "Lock":
+								lockW = true
+							case "Do":
+								once = true
+							}
 						}
 					case *ssa.MakeClosure:
-						walk(ins.Fn.(*ssa.Function))
+						// free variables of the closure that are bound to the method's receiver
+						cf := ins.Fn.(*ssa.Function)
+						for i, bnd := range ins.Bindings {
+							if i < len(cf.FreeVars) && (len(fn.Params) > 0 && bnd == ssa.Value(fn.Params[0]) || recvFree[bnd]) {
+								recvFree[cf.FreeVars[i]] = true
+							}
+						}
+						walk(cf, true)
 					case *ssa.Store:
 						if g, ok := rootGlobal(ins.Addr); ok && !isInit {
-							bad = append(bad, fmt.Sprintf("store to package-level variable %s at %s", globalName(g), c.P.Pos(ins.Pos())))
+							add(fmt.Sprintf("store to package-level variable %s at %s", globalName(g), c.P.Pos(ins.Pos())))
 						}
-						if isShared && rootedAtReceiver(ins.Addr, fn) {
-							bad = append(bad, fmt.Sprintf("store to %s at %s", describeAddr(ins.Addr), c.P.Pos(ins.Pos())))
+						if isShared && (rootedAtReceiver(ins.Addr, fn) || inClosure && rootedAtFreeVar(ins.Addr, recvFree)) {
+							add(fmt.Sprintf("store to %s at %s", describeAddr(ins.Addr), c.P.Pos(ins.Pos())))
 						}
 					case *ssa.MapUpdate:
-						if isShared && rootedAtReceiver(ins.Map, fn) {
-							bad = append(bad, fmt.Sprintf("map update through the receiver at %s", c.P.Pos(ins.Pos())))
+						if isShared && (rootedAtReceiver(ins.Map, fn) || inClosure && rootedAtFreeVar(ins.Map, recvFree)) {
+							add(fmt.Sprintf("map update through the receiver at %s", c.P.Pos(ins.Pos())))
+						}
+					}
+					// delete(m, k) on a receiver map is a write as well
+					if call, ok := ins.(*ssa.Call); ok {
+						if bi, ok := call.Common().Value.(*ssa.Builtin); ok && bi.Name() == "delete" && len(call.Common().Args) == 2 {
+							if isShared && (rootedAtReceiver(call.Common().Args[0], fn) || inClosure && rootedAtFreeVar(call.Common().Args[0], recvFree)) {
+								add(fmt.Sprintf("map delete through the receiver at %s", c.P.Pos(ins.Pos())))
+							}
 						}
 					}
 				}
 			}
 		}
-		walk(fn)
+		walk(fn, false)
+		if os.Getenv("FL_DEBUG") != "" && strings.Contains(fn.String(), os.Getenv("FL_DEBUG")) {
+			fmt.Fprintln(os.Stderr, "DBG", fn.String(), rt, isShared, lockW, once, badBody, badClosure)
+		}
+		var bad []string
+		locks := true
+		if len(badBody) > 0 && !lockW {
+			bad, locks = append(bad, badBody...), false
+		}
+		if len(badClosure) > 0 && !lockW && !once {
+			bad, locks = append(bad, badClosure...), false
+		}
+		if len(bad) == 0 {
+			bad = append(append(bad, badBody...), badClosure...)
+		}
 		if !isShared && len(bad) == 0 {
 			continue
 		}
@@ -514,6 +559,7 @@ func rootedAtReceiver(v ssa.Value, fn *ssa.Function) bool {
 		return false
 	}
 	recv := fn.Params[0]
+	loaded := false // the chain went through a load (so a cell reached afterwards was read, not written)
 	for i := 0; i < 16; i++ {
 		switch x := v.(type) {
 		case *ssa.Parameter:
@@ -526,7 +572,21 @@ func rootedAtReceiver(v ssa.Value, fn *ssa.Function) bool {
 			v = x.X
 		case *ssa.UnOp:
 			v = x.X
+			loaded = true
 		case *ssa.Alloc:
+			if !loaded {
+				return false // the cell itself is the target (the spill of a parameter)
+			}
+			// a pointer receiver captured by a closure is spilled into a cell: the cell holds the receiver
+			if refs := x.Referrers(); refs != nil {
+				for _, r := range *refs {
+					if st, ok := r.(*ssa.Store); ok && st.Addr == ssa.Value(x) && st.Val == ssa.Value(recv) {
+						if _, isPtr := recv.Type().Underlying().(*types.Pointer); isPtr {
+							return true
+						}
+					}
+				}
+			}
 			// value receivers are spilled: local copy, not shared
 			return false
 		default:
@@ -643,4 +703,26 @@ func c19R5(c *Ctx) {
 	if n < 8 {
 		c.RoleUnmatched(rule, "lookup-users", fmt.Sprintf("at least 8 handler functions using storage lookups; found %d", n))
 	}
+}
+
+// rootedAtFreeVar: the address is reached from a captured variable of a closure
+// that is bound to the method's receiver.
+func rootedAtFreeVar(v ssa.Value, recvFree map[ssa.Value]bool) bool {
+	for i := 0; i < 16; i++ {
+		switch x := v.(type) {
+		case *ssa.FreeVar:
+			return recvFree[x]
+		case *ssa.FieldAddr:
+			v = x.X
+		case *ssa.IndexAddr:
+			v = x.X
+		case *ssa.Field:
+			v = x.X
+		case *ssa.UnOp:
+			v = x.X
+		default:
+			return false
+		}
+	}
+	return false
 }
